@@ -137,6 +137,9 @@ func genC20(r *core.Rand, p *core.Plan) {
 		}
 	}
 	p.Ops = append(p.Ops, core.Op{K: "sync"})
+	if r.Chance(1, 3) {
+		p.Ops = append(p.Ops, core.Op{K: "resync"})
+	}
 }
 
 // snapshot of what C20 compares before/after a failed broadcast
@@ -883,4 +886,84 @@ func (rs *runState) sendcrash(task, step int, op core.Op) {
 	// to the backend, parents first; if that offer is rejected (its inputs may
 	// be gone by now) the wallet forgets it, as for any other rejection
 	rs.exec(task, step, core.Op{K: "start"})
+}
+
+// resync (last operation of a third of the C20 plans): two resynchronisations
+// inside ONE wallet session. The wallet is asked to rescan from its tip; when
+// the rescan has finished it offers its unconfirmed transactions again - the
+// node still has them and answers "already in mempool". Then the node loses
+// its mempool (a restart of the backend; nobody is told), and a second rescan
+// finishes: every transaction that is still unconfirmed in the wallet must
+// have been offered again. Whatever the wallet remembered about the first
+// round of answers does not excuse it.
+func (rs *runState) resync(step int, op core.Op) {
+	x := rs.x
+	if !x.running || x.violated || len(x.issuedAddrs) == 0 {
+		return
+	}
+	if !x.syncPoint(fmt.Sprintf("resync%d", step)) {
+		return
+	}
+	for round := 0; round < 2; round++ {
+		before := x.unminedRaw()
+		n0 := len(x.client.Sends)
+		st := x.w.Manager.SyncedTo()
+		errc := x.w.SubmitRescan(&wallet.RescanJob{Addrs: []btcutil.Address{x.issuedAddrs[0].addr}, BlockStamp: st})
+		done := false
+		ok := x.quiesce(func() bool {
+			if x.client.RescanActive() {
+				x.client.StepRescan(0)
+				return false
+			}
+			if x.client.Pending() > 0 {
+				x.client.Deliver(0)
+				return false
+			}
+			select {
+			case <-errc:
+				done = true
+			default:
+			}
+			return done
+		}, 120*time.Second)
+		x.harvestFaults()
+		if !ok {
+			x.env.Count("abort.resync-rescan-not-finished")
+			x.violated = true
+			return
+		}
+		x.quiesce(nil, 0)
+		x.env.Count("op.resync-round")
+		x.env.Eff()
+		offered := map[chainhash.Hash]string{}
+		for _, s := range x.client.Sends[n0:] {
+			offered[s.TxID] = s.Answer
+		}
+		still := map[chainhash.Hash]bool{}
+		for _, t := range x.unminedRaw() {
+			still[t.TxHash()] = true
+		}
+		x.env.Logf("%d resync round %d: %d unconfirmed before, %d offered, %d still unconfirmed", step, round, len(before), len(offered), len(still))
+		for _, t := range before {
+			h := t.TxHash()
+			if !still[h] {
+				continue
+			}
+			if _, ok := offered[h]; !ok {
+				x.fail(fmt.Sprintf("unmined-not-reoffered:at=resync:round=%d", round), "tx %s is still unconfirmed in the wallet after resynchronisation %d of this session but was not offered to the backend (offered in this round: %d)", short(h), round+1, len(offered))
+				return
+			}
+			if round == 1 {
+				x.env.Count("probe.reoffered-after-backend-lost-its-mempool")
+			}
+		}
+		if round == 0 {
+			n := 0
+			for _, t := range before {
+				n += len(x.node.Evict(t.TxHash()))
+			}
+			x.env.Count("fault.backend-mempool-lost")
+			x.env.Logf("%d resync: the node dropped %d mempool transactions", step, n)
+		}
+	}
 }
